@@ -76,6 +76,8 @@ MUTANTS = {
          "        except Exception as e:\n            sys.argv = stash_sys_argv\n            os.chdir(stash_cwd)\n            raise RuntimeError(f'GEOPHIRES encountered an exception: {e!s}') from e")],
         'SystemExit path (and cancellation) skips the restore'),
     'revert_F5_json_path_replace': ('C20', {'missing_json', 'exit_status'}, 'git:22e6eea', 'JSON path mangled for repeated / suffix-less names'),
+    'revert_F6_parser_drops_inf': ('C10', {'parse_mismatch'}, 'git:b305b60', "report cell printed as 'inf' comes back as None"),
+    'revert_F7_cli_exit_0_on_bare_sys_exit': ('C20', {'exit_status'}, 'git:9802755', 'bare sys.exit() -> exit status 0'),
     'cli_exit_0_on_failure': ('C20', {'exit_status'}, [
         (MAIN, "rc = 1\ntry:\n    geophires.main()\n    rc = 0\nexcept SystemExit:", "rc = 0\ntry:\n    geophires.main()\nexcept Exception as e:\n    print(e)\nexcept SystemExit:")],
         'failure swallowed'),
@@ -135,6 +137,7 @@ def run_mutant(name, budget):
     t0 = time.monotonic()
     try:
         apply(dst, spec)
+        shutil.rmtree(os.path.join(D.VERIF, 'replays'), ignore_errors=True)
         env = dict(os.environ, VERIF_REPO=dst, VERIF_BUDGET=str(budget), DSIM_SELFTEST='1')
         env.pop('DSIM_REFDIR', None)
         r = subprocess.run([sys.executable, os.path.join(D.VERIF, 'check'), prop, 'quick'], capture_output=True, text=True, env=env,
@@ -156,6 +159,13 @@ def run_mutant(name, budget):
                 'tail': '' if ok else (r.stdout + r.stderr)[-600:]}
     finally:
         shutil.rmtree(dst, ignore_errors=True)
+        keep = os.environ.get('VERIF_SELFTEST_KEEP_REPLAYS')
+        rp_ = os.path.join(D.VERIF, 'replays')
+        if keep and os.path.isdir(rp_):
+            os.makedirs(os.path.join(keep, name), exist_ok=True)
+            for f_ in os.listdir(rp_):
+                if f_.startswith(prop + '-'):
+                    shutil.copy(os.path.join(rp_, f_), os.path.join(keep, name, f_))
         # replay files written against the scratch copy are meaningless for /repo
         rp = os.path.join(D.VERIF, 'replays')
         if os.path.isdir(rp):
